@@ -56,7 +56,7 @@ Definition dispatch (code : Z) (arg : sx) : option sx :=
   | 500 => Some (of_list (fun p : pos => let '(x, y) := layout_of_pos p in SL [SI (fst p); SI (snd p); of_q x; of_q y])
                          grid_positions)
   | 501 => Some (match sx_program arg with       (* -> [dom; independent; words of each load; words of the final clear] *)
-                 | Some p => SL [of_bool (dom_c05 p); of_bool (loads_independent (pg_loads p) None);
+                 | Some p => SL [of_bool (dom_c05 p); of_bool (dom_c05_wide p);
                                  of_list (fun l => of_list SI (emit_load (pg_doubled p) l)) (pg_loads p);
                                  of_list SI (emit_clear (pg_doubled p))]
                  | None => bad
